@@ -127,7 +127,7 @@ def cond_not(c):
 
 
 class Obligation:
-    __slots__ = ('fn', 'kind', 'desc', 'span', 'ok', 'bad', 'detail', 'ord', 'bad_entries', 'details')
+    __slots__ = ('fn', 'kind', 'desc', 'span', 'ok', 'bad', 'detail', 'ord', 'bad_entries', 'details', 'subsumed')
 
     def __init__(self, fn, kind, desc, span):
         self.fn = fn
@@ -140,6 +140,7 @@ class Obligation:
         self.ord = 0
         self.bad_entries = {}
         self.details = []
+        self.subsumed = 0
 
     def key(self):
         return '%s:%s:%s#%d' % (self.fn, self.kind, self.desc, self.ord)
@@ -595,7 +596,7 @@ def join_states(an, a, b, frame, bb, widen=False):
                         orig = None
                         if len(lack) > 5 and lack[4] is not None:
                             fty = an.adt_field_ty(lack[1], list(lack[5]), k[0], k[1])
-                            if fty in INT_RANGES or fty == 'bool':
+                            if fty in INT_RANGES or fty == 'bool' or (fty and parse_ty(fty)[0] in ('adt', 'tuple', 'array')):
                                 single = lack[2] == frozenset([0]) and lack[1] not in ('core::option::Option', 'core::result::Result')
                                 orig = an.materialize(fty, '%s.%s%s' % (lack[4], '' if single else 'v%d.' % k[0], k[1]), lack_st, None)
                                 late_syms.append(orig)
@@ -615,6 +616,23 @@ def join_states(an, a, b, frame, bb, widen=False):
             off = jv(('int', x[2]), ('int', y[2]), tag + '.off')
             ln = jv(('int', x[3]), ('int', y[3]), tag + '.len')
             return ('sref', x[1], off[1], ln[1])
+        if kx == ky == 'sref':
+            # slices of different objects: an opaque phi object that remembers its sources (a write through it
+            # weakly updates every source; its own element knowledge starts empty)
+            def srcs(bs):
+                return list(bs[2]) if bs[0] == 'P' else [bs]
+            ss = []
+            for z in srcs(x[1]) + srcs(y[1]):
+                if z not in ss:
+                    ss.append(z)
+            if len(ss) <= 6:
+                nm = 'phi(%s,bb%d,%s)*' % (frame, bb, tag)
+                base = ('P', nm, tuple(ss))
+                if x[1] != base:
+                    changed = True
+                phi_objs.add(nm)
+                ln = jv(('int', x[3]), ('int', y[3]), tag + '.len')
+                return ('sref', base, Lin.const(0), ln[1])
         if kx == ky == 'array' and x[1] == y[1]:
             el = {}
             for k in set(x[2]) & set(y[2]):
@@ -644,6 +662,7 @@ def join_states(an, a, b, frame, bb, widen=False):
         return TOP
 
     r_phi_rel = []
+    phi_objs = set()
     pending_guards = []
     late_syms = []
     for k in set(a.env) & set(b.env):
@@ -655,6 +674,8 @@ def join_states(an, a, b, frame, bb, widen=False):
         if os.environ.get('LRS_DBG_JOIN'):
             print('   env-keys-change bb%s %s' % (bb, sorted(set(a.env) - set(b.env))[:5]))
     for k in set(a.mem) & set(b.mem):
+        if k[0] == 'el' and k[1][0] == 'P' and k[1][1] in phi_objs:
+            continue
         v = jv(a.mem[k], b.mem[k], 'm' + '.'.join(map(str, k)))
         if v is not None:
             r.mem[k] = v
@@ -937,6 +958,7 @@ class Analyzer:
         self.loops = {}
         self.stack = []
         self.fn_contexts = {}
+        self.subsume = None
         self.models = {}
         from . import absint_models
         absint_models.register(self)
@@ -949,6 +971,13 @@ class Analyzer:
         if o is None:
             o = Obligation(fn, kind, desc, span)
             self.obl[k0] = o
+        if not ok and self.subsume:
+            # modular judgement: a context that passes through another analysed entry point g is covered by the
+            # analysis rooted at g (unconstrained arguments under the type invariants over-approximate this call)
+            ch = frame.chain()
+            if any(f in self.subsume for f in ch[:-1]):
+                o.subsumed += 1
+                return ok
         if ok:
             o.ok += 1
         else:
